@@ -318,3 +318,119 @@ Proof. vm_compute. repeat split; reflexivity. Qed.
 Print Assumptions C06_true_lag_is_global_max.
 Print Assumptions C06_true_lag_window_normalised.
 Print Assumptions C06_true_lag_any_offset_partial.
+
+(* ==================================================================================================================================
+   APPENDED (2): THE TRUE LAG YIELDS A PRIMARY SEED (model/FindPeaks.v, model/Seeding.v; proofs/FindPeaksProofs4-5.v, SeedingProofs2.v)
+
+   The text above says that which point of a plateau find_peaks reports, its filters and the edge rule stay outside the theorems.
+   For the PRIMARY stage they no longer do.  For a planted grid-aligned copy (the hypotheses of C06_true_lag_window_normalised), on the
+   EXACT normalised correlation c (what getInitialAlignment would compute if the FFT with the float kernel were exact; the code's doubles
+   are within ~1e-15 of c, see model/Seeding.v), and provided c is below 1 somewhere on each side of the true lag k0 (the edge rule:
+   scipy never reports a plateau that touches the first or last lag — a copy of the reference's very first labels at lag 0 yields NO peak
+   at its true lag):
+
+     C06_true_lag_yields_seed          the plateau [l, r] of k0 is a local maximum of c; every lag on it has c = 1 and a reference window
+                                       that is bit for bit the query vector; find_peaks(height = 0.75 max, distance d) returns a peak of
+                                       height exactly 1 whose bin is the plateau's midpoint (l+r)//2 or closer than d bins to it, and at
+                                       that bin too the reference window IS the query vector; no returned peak is higher than 1.
+     C06_true_lag_yields_seed_at_lag   if the query vector contains a 0 (its labels are not all within 2*blur+1 bins of each other), two
+                                       neighbouring lags cannot both see an identical window: the plateau is the single bin k0, k0 itself
+                                       is a local maximum, and the peak is AT k0 or closer than d bins to it (the latter only if another
+                                       lag within d bins also shows an identical window: a repeat in the reference).
+     C06_true_lag_yields_primary_peak  the same through OpticalMap.getInitialAlignment as modelled (Seeding.primary_peaks: no exception, no
+                                       EmptyInitialAlignment, createPeaks' cut for peaksCount >= 1): it returns a peak of height 1 — the
+                                       maximum — on this reference and strand at a bin m whose reference window is the query vector;
+                                       its position is toRelativeGenomicPositions(m) = bin_to_bp m res 0 (within res/2 of every point of
+                                       bin m: C06_centre).
+
+   THE REMAINING GAP to the hypothesis of C06_pairing_exact ("the seed lies within delta of the true diagonal"):
+   (1) identical windows elsewhere: the peak of height 1 is at k0 unless another lag shows the same blurred bit pattern (within d bins, or
+       anywhere when more than peaksCount such peaks exist); a reference without such repeats is not characterised here;
+   (2) selectPeaks ranks the peaks of ALL references and strands by height - noise level: that this peak is among the peaksCount best is
+       not proved (heights elsewhere are at most 1, but noise levels differ between correlations);
+   (3) InitialAlignment.refine (secondary resolution, height >= peakHeightThreshold, prominence) turns the primary position (within
+       res1/2 = 700 bp of the true diagonal when m = k0) into the secondary peaks the aligner uses: C06_true_lag_is_global_max says the raw
+       secondary correlation is maximal at the true lag of the secondary window when that window starts on the secondary lattice, nothing
+       more is proved about the secondary stage;
+   (4) floating point: see model/Seeding.v (ties of the exact correlation can be broken either way by FFT rounding noise). *)
+From Coq Require Import QArith Lia.
+Require Import FindPeaks Seeding FindPeaksProofs1 FindPeaksProofs4 FindPeaksProofs5 SeedingProofs2.
+Open Scope Z_scope.
+
+Theorem C06_true_lag_yields_seed R a n res r k0 (rev : bool) q d :
+  1 <= res -> StronglySorted Z.le R -> (1 <= n)%nat -> (a + n <= List.length R)%nat ->
+  planted R a n rev q -> nth a R 0 = Z.of_nat k0 * res ->
+  (rev = true -> Forall (fun x => (res | x - nth a R 0)) (win R a n)) ->
+  let vr := get_sequence R res r false 0 None in
+  let vq := get_sequence (mpositions q) res r rev 0 None in
+  let c := normalised vr vq in
+  (exists a', (a' < k0)%nat /\ (nth a' c 0 < 1)%Q) ->
+  (exists b', (k0 < b' <= List.length vr - List.length vq)%nat /\ (nth b' c 0 < 1)%Q) ->
+  exists l r', (l <= k0 <= r')%nat /\ is_peak qleb 0%Q c l r' /\
+    (forall k, (l <= k <= r')%nat -> (nth k c 0 == 1)%Q /\ window vr k (List.length vq) = vq) /\
+    (forall p, In p (find_peaks_initial c d) -> (snd p <= 1)%Q) /\
+    exists m' h', In (m', h') (find_peaks_initial c d) /\ (h' == 1)%Q /\ window vr m' (List.length vq) = vq /\
+      (m' = Nat.div2 (l + r') \/ (m' - Nat.div2 (l + r') < d /\ Nat.div2 (l + r') - m' < d)%nat).
+Proof. exact (planted_yields_peak R a n res r k0 rev q d). Qed.
+
+Theorem C06_true_lag_yields_seed_at_lag R a n res r k0 (rev : bool) q d :
+  1 <= res -> StronglySorted Z.le R -> (1 <= n)%nat -> (a + n <= List.length R)%nat ->
+  planted R a n rev q -> nth a R 0 = Z.of_nat k0 * res ->
+  (rev = true -> Forall (fun x => (res | x - nth a R 0)) (win R a n)) ->
+  let vr := get_sequence R res r false 0 None in
+  let vq := get_sequence (mpositions q) res r rev 0 None in
+  let c := normalised vr vq in
+  (exists i, (i < List.length vq)%nat /\ nth i vq 0 = 0) ->
+  (exists a', (a' < k0)%nat /\ (nth a' c 0 < 1)%Q) ->
+  (exists b', (k0 < b' <= List.length vr - List.length vq)%nat /\ (nth b' c 0 < 1)%Q) ->
+  is_peak qleb 0%Q c k0 k0 /\ In (k0, nth k0 c 0%Q) (local_maxima qleb c) /\
+  exists m' h', In (m', h') (find_peaks_initial c d) /\ (h' == 1)%Q /\ window vr m' (List.length vq) = vq /\
+    (m' = k0 \/ (m' - k0 < d /\ k0 - m' < d)%nat).
+Proof. exact (planted_yields_peak_at_lag R a n res r k0 rev q d). Qed.
+
+Theorem C06_true_lag_yields_primary_peak sp ref q a n k0 (rev : bool) :
+  1 <= res1 sp -> 0 <= blur1 sp -> res1 sp <= min_dist sp -> (1 <= pcount sp)%nat ->
+  StronglySorted Z.le (mpositions ref) -> (1 <= n)%nat -> (a + n <= List.length (mpositions ref))%nat ->
+  planted (mpositions ref) a n rev q -> mlen q <= mlen ref ->
+  nth a (mpositions ref) 0 = Z.of_nat k0 * (K * res1 sp) ->
+  (rev = true -> Forall (fun x => (K * res1 sp | x - nth a (mpositions ref) 0)) (win (mpositions ref) a n)) ->
+  let vr := get_sequence (mpositions ref) (K * res1 sp) (Z.to_nat (blur1 sp)) false 0 None in
+  let vq := get_sequence (mpositions q) (K * res1 sp) (Z.to_nat (blur1 sp)) rev 0 None in
+  let c := normalised vr vq in
+  (exists a', (a' < k0)%nat /\ (nth a' c 0 < 1)%Q) ->
+  (exists b', (k0 < b' <= List.length vr - List.length vq)%nat /\ (nth b' c 0 < 1)%Q) ->
+  exists l p m, primary_peaks sp ref q rev = Ok l /\ In p l /\ pp_ref p = ref /\ pp_rev p = rev /\ (pp_height p == 1)%Q /\
+    (forall p', In p' l -> (pp_height p' <= 1)%Q) /\
+    pp_pos p = bin_to_bp (Z.of_nat m) (res1 sp) 0 /\ (m <= List.length vr - List.length vq)%nat /\ window vr m (List.length vq) = vq.
+Proof. exact (planted_primary_peak sp ref q a n k0 rev). Qed.
+
+(* ---- non-vacuity ---- *)
+(* sx_R / sx_q above (all-ones query vector): the plateau of the true lag 7 is [6, 9] (midpoint 7); find_peaks returns (7, 1) *)
+Example C06_yields_seed_nonvacuous :
+  let c := normalised (get_sequence sx_R 100 1 false 0 None) (get_sequence (mpositions sx_q) 100 1 false 0 None) in
+  (nth 5 c 0 < 1)%Q /\ (nth 10 c 0 < 1)%Q /\ (10 <= 21 - 4)%nat /\ is_peak qleb 0%Q c 6 9 /\
+  find_peaks_initial c 2 = [(7%nat, 8 # 8)].
+Proof. cbv zeta. split; [reflexivity|]. split; [reflexivity|]. split; [lia|]. split; [|vm_compute; reflexivity].
+  unfold is_peak. split; [lia|]. split; [lia|]. split; [vm_compute; lia|]. split; [|split; vm_compute; reflexivity].
+  intros k Hk. assert (k = 6 \/ k = 7 \/ k = 8 \/ k = 9)%nat as [->|[->|[->| ->]]] by lia; vm_compute; reflexivity. Qed.
+(* sx_R2 / sx_q2 above (reverse strand; the query vector [1;1;1;1;1;0;0;0;1;1] contains a 0): the plateau is the single bin 7 *)
+Example C06_yields_seed_at_lag_nonvacuous :
+  let vq := get_sequence (mpositions sx_q2) 100 1 true 0 None in
+  let c := normalised (get_sequence sx_R2 100 1 false 0 None) vq in
+  nth 5 vq 0 = 0 /\ (nth 6 c 0 < 1)%Q /\ (nth 8 c 0 < 1)%Q /\ is_peak qleb 0%Q c 7 7 /\ find_peaks_initial c 2 = [(7%nat, 14 # 14)].
+Proof. cbv zeta. split; [reflexivity|]. split; [reflexivity|]. split; [reflexivity|]. split; [|vm_compute; reflexivity].
+  unfold is_peak. split; [lia|]. split; [lia|]. split; [vm_compute; lia|]. split; [|split; vm_compute; reflexivity].
+  intros k Hk. assert (k = 7)%nat as -> by lia. vm_compute. reflexivity. Qed.
+(* through getInitialAlignment as modelled: the map of C16_ex_seeds (resolution 10 bp): the forward copy of labels 2..5, true lag 7 *)
+Example C06_yields_primary_peak_nonvacuous :
+  let ref := mkMap 1 4000 [0; 700; 1000; 1600; 2000; 2300; 3100; 3500] 0 in
+  let q := mkMap 7 1310 [0; 300; 900; 1300] 0 in
+  let sp := mkSP 10 1 20 3 5 1 40 (2 # 1) in
+  planted (mpositions ref) 1 4 false q /\ nth 1 (mpositions ref) 0 = Z.of_nat 7 * (K * res1 sp) /\ mlen q <= mlen ref /\
+  match primary_peaks sp ref q false with Ok l => List.map (fun p => (pp_pos p, pp_height p)) l = [(74, (20 # 20)%Q)] | Err => False end /\
+  bin_to_bp 7 10 0 = 74.
+Proof. cbv zeta. split; [vm_compute; repeat split; reflexivity|]. vm_compute. repeat split; try reflexivity; intros; discriminate. Qed.
+
+Print Assumptions C06_true_lag_yields_seed.
+Print Assumptions C06_true_lag_yields_seed_at_lag.
+Print Assumptions C06_true_lag_yields_primary_peak.
